@@ -74,10 +74,12 @@ func (f c14fault) apply(env *Env) {
 		env.Writer.FailAt = f.k
 	case "writer-torn":
 		env.Writer.FailAt, env.Writer.Torn = f.k, true
+	case "writer-short":
+		env.Writer.FailAt, env.Writer.Short = f.k, true
 	}
 }
 
-var c14kinds = []string{"reader", "reader+data", "writer", "writer-torn"}
+var c14kinds = []string{"reader", "reader+data", "writer", "writer-torn", "writer-short"}
 
 func caseC14(c *Ctx) {
 	massive := pickArm(c, []string{"simple", "massive"}, 5, 5) == "massive"
@@ -157,11 +159,14 @@ func caseC14(c *Ctx) {
 			c.Scenario["fault"] = fmt.Sprintf("%s at %d", f.kind, f.k)
 			c.Failf(sig, format, a...)
 		}
-		if len(out.Panics) > 0 || out.Hang || out.StepCap {
-			c.st.Count("no-result(not judged here)")
-			return
-		}
 		opk := op.String()
+		if len(out.Panics) > 0 {
+			// the property demands a returned error: a crash under an injected failure is not one
+			fail("C14:panic-under-"+strings.SplitN(f.kind, "-", 2)[0]+"-failure:"+mode+":"+out.Panics[0].Site, "%s with %s at %d panicked in task %s: %s", opk, f.kind, f.k, out.Panics[0].Task, out.Panics[0].Value)
+		}
+		if out.Hang || out.StepCap {
+			fail("C14:no-return-under-"+strings.SplitN(f.kind, "-", 2)[0]+"-failure:"+mode+":"+leakOrCallerSite(out), "%s with %s at %d never returned\n%s", opk, f.kind, f.k, hangDetail(out))
+		}
 		if out.ReaderFired {
 			if out.Err == nil {
 				fail("C14:reader-error-swallowed:"+mode+":"+op.Kind, "%s: the reader failed after byte %d of %d and the call returned nil", opk, f.k, L)
@@ -176,7 +181,11 @@ func caseC14(c *Ctx) {
 			}
 		}
 		if out.WriterFired && out.Err == nil {
-			fail("C14:writer-error-swallowed:"+mode+":"+opSig(op), "%s: the writer failed at write #%d (%d bytes refused) and the call returned nil", opk, f.k, out.WriterRefused)
+			what := "writer-error-swallowed"
+			if f.kind == "writer-short" {
+				what = "short-write-swallowed"
+			}
+			fail("C14:"+what+":"+mode+":"+opSig(op), "%s: the writer refused %d bytes at write #%d (%s) and the call returned nil", opk, out.WriterRefused, f.k, f.kind)
 		}
 		if out.Err == nil {
 			// nil => every byte of the output was accepted
@@ -200,7 +209,7 @@ func caseC14(c *Ctx) {
 				}
 			}
 			for j := 0; j < W; j++ {
-				faults = append(faults, c14fault{"writer", j}, c14fault{"writer-torn", j})
+				faults = append(faults, c14fault{"writer", j}, c14fault{"writer-torn", j}, c14fault{"writer-short", j})
 			}
 		}
 		c.st.Add("enumerated.reader-offsets", L+1)
@@ -217,7 +226,7 @@ func caseC14(c *Ctx) {
 	}
 	// massive: one fault per case under a seeded schedule
 	var f c14fault
-	kinds := []string{"writer", "writer-torn"}
+	kinds := []string{"writer", "writer-torn", "writer-short"}
 	if !op.FromRoot {
 		kinds = c14kinds
 	}
